@@ -65,10 +65,23 @@ def const_expr(e: ast.AST) -> bool:
         return all(k is not None and const_expr(k) and const_expr(v) for k, v in zip(e.keys, e.values))
     if isinstance(e, ast.Call) and isinstance(e.func, ast.Name) and e.func.id in ("set", "dict", "list") and not e.args and not e.keywords:
         return True
-    if (isinstance(e, ast.Call) and isinstance(e.func, ast.Attribute) and e.func.attr == "copy" and not e.args
-            and isinstance(e.func.value, ast.Name) and e.func.value.id.isupper()):
-        return True         # MODULE_CONSTANT.copy()
+    if copied_constant(e) is not None:
+        return True         # MODULE_CONSTANT.copy(), set(MODULE_CONSTANT), {*MODULE_CONSTANT}: a fresh shallow copy
     return False
+
+
+def copied_constant(e: ast.AST) -> str | None:
+    """NAME if `e` builds a fresh shallow copy of the module constant NAME"""
+    if (isinstance(e, ast.Call) and isinstance(e.func, ast.Attribute) and e.func.attr == "copy" and not e.args and not e.keywords
+            and isinstance(e.func.value, ast.Name) and e.func.value.id.isupper()):
+        return e.func.value.id
+    if (isinstance(e, ast.Call) and isinstance(e.func, ast.Name) and e.func.id in ("set", "list", "dict") and len(e.args) == 1 and not e.keywords
+            and isinstance(e.args[0], ast.Name) and e.args[0].id.isupper()):
+        return e.args[0].id
+    if isinstance(e, (ast.Set, ast.List)) and len(e.elts) == 1 and isinstance(e.elts[0], ast.Starred) \
+            and isinstance(e.elts[0].value, ast.Name) and e.elts[0].value.id.isupper():
+        return e.elts[0].value.id
+    return None
 
 
 MUTATING_METHODS = {"add", "update", "discard", "remove", "pop", "clear", "append", "extend", "insert", "setdefault", "popitem", "sort",
@@ -118,12 +131,12 @@ def reset_kind(e: ast.AST, src: Path, header_tree: ast.Module) -> dict:
     """what kind of value a reset assigns: a mutable container (set / dict / list: an aliased or missing reset leaks CONTENT
     into later compiles) or an immutable scalar"""
     txt = ast.unparse(e)
-    if isinstance(e, ast.Call) and isinstance(e.func, ast.Name) and e.func.id in ("set", "dict", "list"):
+    name = copied_constant(e)
+    if name is None and isinstance(e, ast.Call) and isinstance(e.func, ast.Name) and e.func.id in ("set", "dict", "list"):
         return dict(kind=e.func.id, mutable=True, text=txt)
-    if isinstance(e, (ast.Set, ast.Dict, ast.List)):
+    if name is None and isinstance(e, (ast.Set, ast.Dict, ast.List)):
         return dict(kind={ast.Set: "set", ast.Dict: "dict", ast.List: "list"}[type(e)], mutable=True, text=txt)
-    if isinstance(e, ast.Call) and isinstance(e.func, ast.Attribute) and e.func.attr == "copy":
-        name = e.func.value.id
+    if name is not None:
         where, val = module_constant(src, header_tree, name)
         # a SHALLOW copy is a fresh value only if the constant is a flat literal of immutable constants
         if not (isinstance(val, (ast.Set, ast.List, ast.Dict)) and const_expr(val)
